@@ -4010,3 +4010,140 @@ func E4DeactivationWithoutPenaltyWidth(c *core.Ctx, r *core.Report) {
 	r.Count("E4.node-removals", n)
 	r.Floor("E4.node-removals", 1)
 }
+
+// E4GlueAfterBox: glue is a legal breakpoint only directly after a box.
+func E4GlueAfterBox(c *core.Ctx, r *core.Report) {
+	r.Rule("E4.glue-after-box", "Linebreak tries a break at a glue only when the item in front of it is a box (Knuth–Plass: `Box Penalty(+∞) Glue` is a tie, the glue after the forbidden penalty is no breakpoint). In the item loop the call of mainLoop under the glue case is guarded by a test of the previous item's type (`items[b-1].Type == BoxType`), or by a boolean that every path through the loop body assigns — a running flag that some item leaves untouched (a penalty of +∞ enters no branch of the if/else chain) still says \"after a box\" two items later, and the tie is broken")
+	p := c.MustPkg("text")
+	info := p.TypesInfo
+	fd := core.MustFuncDecl(p, "Linebreak")
+	n := 0
+	ast.Inspect(fd.Body, func(m ast.Node) bool {
+		rs, ok := m.(*ast.RangeStmt)
+		if !ok {
+			return true
+		}
+		// the glue branch with a mainLoop call
+		var guard ast.Expr
+		var found bool
+		ast.Inspect(rs.Body, func(k ast.Node) bool {
+			is, ok := k.(*ast.IfStmt)
+			if !ok {
+				return true
+			}
+			isGlue := false
+			ast.Inspect(is.Cond, func(q ast.Node) bool {
+				if e, ok := q.(ast.Expr); ok && core.ConstName(info, e) == "GlueType" {
+					isGlue = true
+				}
+				return true
+			})
+			if !isGlue {
+				return true
+			}
+			for _, st := range is.Body.List {
+				if inner, ok := st.(*ast.IfStmt); ok {
+					calls := false
+					ast.Inspect(inner.Body, func(q ast.Node) bool {
+						if call, ok := q.(*ast.CallExpr); ok {
+							if f := core.CalleeOf(info, call); f != nil && f.Name() == "mainLoop" {
+								calls = true
+							}
+						}
+						return true
+					})
+					if calls {
+						guard, found = inner.Cond, true
+					}
+				}
+			}
+			return false
+		})
+		if !found {
+			return true
+		}
+		n++
+		key := "text.Linebreak|a glue is tried only directly after a box"
+		// index form
+		byIndex := false
+		ast.Inspect(guard, func(q ast.Node) bool {
+			be, ok := q.(*ast.BinaryExpr)
+			if !ok || be.Op != token.EQL {
+				return true
+			}
+			for _, pr := range [][2]ast.Expr{{be.X, be.Y}, {be.Y, be.X}} {
+				if core.ConstName(info, pr[1]) != "BoxType" {
+					continue
+				}
+				if se, ok := core.Unparen(pr[0]).(*ast.SelectorExpr); ok {
+					if ie, ok := core.Unparen(se.X).(*ast.IndexExpr); ok {
+						if sub, ok := core.Unparen(ie.Index).(*ast.BinaryExpr); ok && sub.Op == token.SUB {
+							if v, ok := core.ConstInt(info, sub.Y); ok && v == 1 {
+								byIndex = true
+							}
+						}
+					}
+				}
+			}
+			return true
+		})
+		if byIndex {
+			r.OK("E4.glue-after-box", key, c.Pos(guard.Pos()), "the type of the item in front")
+			return true
+		}
+		// flag form
+		var flag types.Object
+		ast.Inspect(guard, func(q ast.Node) bool {
+			if id, ok := q.(*ast.Ident); ok && flag == nil {
+				if o := core.ObjOf(info, id); o != nil {
+					if bt, ok := o.Type().Underlying().(*types.Basic); ok && bt.Info()&types.IsBoolean != 0 {
+						if _, isVar := o.(*types.Var); isVar {
+							flag = o
+						}
+					}
+				}
+			}
+			return true
+		})
+		if flag == nil {
+			r.Fail("E4.glue-after-box", key, c.Pos(guard.Pos()), fmt.Sprintf("the guard `%s` tests neither the type of the previous item nor a flag", c.Src(guard)))
+			return true
+		}
+		var assignsAll func(list []ast.Stmt) bool
+		assignsAll = func(list []ast.Stmt) bool {
+			for _, st := range list {
+				switch x := st.(type) {
+				case *ast.AssignStmt:
+					for _, l := range x.Lhs {
+						if id, ok := l.(*ast.Ident); ok && core.ObjOf(info, id) == flag {
+							return true
+						}
+					}
+				case *ast.IfStmt:
+					if x.Else == nil {
+						continue
+					}
+					all := assignsAll(x.Body.List)
+					switch e := x.Else.(type) {
+					case *ast.BlockStmt:
+						all = all && assignsAll(e.List)
+					case *ast.IfStmt:
+						all = all && assignsAll([]ast.Stmt{e})
+					}
+					if all {
+						return true
+					}
+				}
+			}
+			return false
+		}
+		if assignsAll(rs.Body.List) {
+			r.OK("E4.glue-after-box", key, c.Pos(guard.Pos()), "a flag assigned on every path through the loop body")
+		} else {
+			r.Fail("E4.glue-after-box", key, c.Pos(guard.Pos()), fmt.Sprintf("the flag `%s` is not assigned on every path through the loop body: an item that enters no branch (a penalty of +∞) leaves it set, and the glue after `Box Penalty(+∞)` is tried as a breakpoint although that sequence is a tie", flag.Name()))
+		}
+		return true
+	})
+	r.Count("E4.glue-guards", n)
+	r.Floor("E4.glue-guards", 1)
+}
